@@ -55,7 +55,8 @@ class OpTaint:
                 k = self.kind(f, mc[0], env)
                 if k == 'MAP' and mc[1] in ('pop', 'get', '__getitem__'):
                     return 'VAL'
-                if k == 'MAP' and mc[1] in ('items', 'values', 'copy'):
+                if k == 'MAP' and mc[1] in ('items', 'values', 'copy',
+                                            'keys'):
                     return 'MAP:' + mc[1] if mc[1] != 'copy' else 'MAP'
             if isinstance(e.func, ast.Name) and e.func.id in (
                     'dict', 'list', 'sorted') and e.args:
@@ -102,6 +103,9 @@ class OpTaint:
         if k in ('MAP:items',) and isinstance(target, ast.Tuple) and len(
                 target.elts) == 2:
             env[U(target.elts[1])] = 'VAL'
+            env[U(target.elts[0])] = 'KEY'
+        elif k in ('MAP', 'MAP:keys') and isinstance(target, ast.Name):
+            env[target.id] = 'KEY'      # a policy name as the file spells it
         elif k == 'MAP:values' and isinstance(target, ast.Name):
             env[target.id] = 'VAL'
         elif mc and mc[1] == 'items' and self.kind(
@@ -356,9 +360,13 @@ def quoted_holes(f, prog=None):
                     isinstance(segs[i - 1], Lit) and isinstance(
                         segs[i + 1], Lit) and segs[i - 1].text.endswith(
                             '"') and segs[i + 1].text.startswith('"'):
-                # only rule *values*: the hole after `": "`
+                # rule *values* (the hole after `": "`) and names (the
+                # hole before `":`)
                 if segs[i - 1].text.endswith(': "') or segs[
                         i - 1].text.endswith(':"'):
+                    out.append((expr, s))
+                elif segs[i + 1].text.startswith('":'):
+                    s.is_name = True
                     out.append((expr, s))
     return out
 
@@ -406,17 +414,42 @@ def check_quoted_hole(ctx):
             n += 1
             k = tn.kind(f, hole.node, env) if hole.node is not None \
                 else None
+            # a loop variable is what its own loop binds it to (the same
+            # name may hold something else elsewhere in the function)
+            if isinstance(hole.node, ast.Name):
+                pm = parent_map(f.node)
+                anc = pm.get(expr)
+                while anc is not None:
+                    if isinstance(anc, ast.For) and any(
+                            isinstance(x, ast.Name) and x.id == hole.node.id
+                            for x in ast.walk(anc.target)):
+                        env2 = dict(env)
+                        env2.pop(hole.node.id, None)
+                        tn.bind_iter(f, anc.target, anc.iter, env2)
+                        k = env2.get(hole.node.id)
+                        break
+                    anc = pm.get(anc)
             # comment lines may show anything
-            ok = k != 'VAL'
+            if getattr(hole, 'is_name', False) and k != 'KEY':
+                n -= 1
+                continue        # a registered name (the quantifier's alphabet)
+            ok = k not in ('VAL', 'KEY')
             ctx.ob('C18.QUOTED-HOLE', ok, ctx.where(f.module, expr), f.qual,
                    'value `%s` between double quotes' % hole.source,
                    'comes from registered defaults (free of quotes and '
                    'backslashes by the quantifier) or is serialised' if ok
-                   else 'a rule value read from the operator\'s policy file '
-                   '(a string with arbitrary characters or a list-of-lists '
-                   'rule) is pasted between double quotes: a list is '
-                   'rewritten to the string of its repr (= `!`), a value '
-                   'containing `"` yields an unloadable file')
+                   else ('a policy name read from the operator\'s policy '
+                         'file is pasted between double quotes: YAML reads '
+                         'a backslash in it as an escape (`a\\b` becomes a '
+                         'different name, so references to it turn '
+                         'undefined) and a `"` yields an unloadable file'
+                         if k == 'KEY' else
+                         'a rule value read from the operator\'s policy file '
+                         '(a string with arbitrary characters or a '
+                         'list-of-lists rule) is pasted between double '
+                         'quotes: a list is rewritten to the string of its '
+                         'repr (= `!`), a value containing `"` yields an '
+                         'unloadable file'))
     # rule lines written by templates: the value must be serialised or
     # quoted; count the rule-line templates so the rule is not vacuous
     rule_lines = sum(1 for f in funcs for _x in rule_line_templates(f))
@@ -619,8 +652,12 @@ def check_keep_override(ctx):
                 segs = merge(segments(a0))
             except Unknown:
                 continue
-            if len(segs) >= 3 and isinstance(segs[0], Lit) and not \
-                    segs[0].text.lstrip().startswith('#') and isinstance(
+            def of_elem(x):
+                return isinstance(x, Hole) and ('SYM_e' in x.source or any(
+                    nm in x.source for nm in elem_names))
+            if len(segs) >= 3 and ((isinstance(segs[0], Lit) and not
+                                    segs[0].text.lstrip().startswith('#'))
+                                   or of_elem(segs[0])) and isinstance(
                         segs[-1], Lit) and segs[-1].text.endswith('\n') \
                     and any(isinstance(x, Hole) and (
                         'SYM_e' in x.source or any(
